@@ -120,3 +120,19 @@ Definition c06_mon_code (vals : list N) (pv pc : list entry) (o : obs) : N :=
      | None, None => true
      | _, _ => false
      end) 128.
+
+(** The summary part alone (used on the voting view read back from the real mirror, where the
+    admitted proofs are themselves part of the observation: "the reported vote summary equals what
+    is recomputed from the admitted signatures"). *)
+Definition c06_sum_mon (vals : list N) (pv pc : list entry) (o : obs) : bool :=
+  if negb (guard_ok vals pv && guard_ok vals pc) then true else
+  (o_available o =? sum_powers vals) &&
+  kind_ok vals pv (o_total_prevote o) (o_prevote_block o) (o_most_prevote o) &&
+  kind_ok vals pc (o_total_precommit o) (o_precommit_block o) (o_most_precommit o).
+
+(** One vote message whose signers hold, counted once each, less than the minority threshold must
+    leave the mirror at height 1 round 0 (fresh mirror at the initial height 1). *)
+Definition c06_round_mon (vals : list N) (entries : list entry) (h r : N) : bool :=
+  if negb (guard_ok vals entries && (1 <=? sum_powers vals) &&
+           (mask_power vals (union_mask entries) <? spec_minority (sum_powers vals))) then true
+  else (h =? 1) && (r =? 0).
